@@ -399,12 +399,17 @@ void runSer(const Op& op, Transcript& t) {
     // 4. bounded buffer, every capacity 0..len+2 (exactly-sized heap block: ASan guards both ends)
     std::string capsSel = op.str("caps", "all");
     size_t capLo = 0, capHi = len + 2;
-    if (capsSel != "all")
+    if (capsSel != "all" && capsSel != "sample")
       capLo = capHi = size_t(strtoull(capsSel.c_str(), nullptr, 10));
     size_t step = 1;
     if (capsSel == "all" && len > 3000)
       step = 1 + len / 1500;
-    for (size_t cap = capLo; cap <= capHi; cap += (cap < 80 || cap + 80 > capHi) ? 1 : step) {
+    if (capsSel == "sample") {
+      capLo = 0;
+      capHi = len + 2;
+      step = 1 + len / 24;  // large documents: the ends densely, the middle sparsely
+    }
+    for (size_t cap = capLo; cap <= capHi; cap += (cap < (capsSel == "sample" ? 6u : 80u) || cap + (capsSel == "sample" ? 6 : 80) > capHi) ? 1 : step) {
       bool uchar = (cap & 1) != 0;
       {
         char* blk = static_cast<char*>(malloc(cap ? cap : 1));
@@ -518,7 +523,8 @@ Plan generate(const std::string& mode, uint64_t seed, uint64_t run) {
   Rng r(seed);
   Plan p;
   p.head.set("family", "sink").set("mode", mode).setu("seed", seed).setu("run", run);
-  bool mp = mode == "mp";
+  bool mp = mode == "mp" || mode == "mpbig";
+  bool wantBig = mode == "mpbig" || mode == "jsonbig";
   GenOpts g;
   g.maxDepth = 4;
   g.maxWidth = 5;
@@ -530,7 +536,28 @@ Plan generate(const std::string& mode, uint64_t seed, uint64_t run) {
   g.allowNulInKey = true;
   Val v;
   unsigned sel = unsigned(r.below(100));
-  if (sel < 55) {
+  bool big = false;
+  if (wantBig) {
+    // count and length headers on both sides of 65535/65536
+    big = true;
+    size_t n = 65534 + size_t(r.below(4));
+    unsigned what = unsigned(r.below(3));
+    if (what == 0) {
+      v = Val::arr();
+      for (size_t j = 0; j < n; j++)
+        v.a.push_back(Val::integer(int64_t(j & 0x7F)));
+    } else if (what == 1) {
+      v = Val::obj();
+      for (size_t j = 0; j < n; j++)
+        v.o.emplace_back(std::to_string(j), Val::integer(int64_t(j & 0x7F)));
+    } else {
+      std::string str(n, 'x');
+      for (size_t j = 0; j < n; j += 101)
+        str[j] = char('a' + (j / 101) % 26);
+      v = Val::arr();
+      v.a.push_back(Val::str(str));
+    }
+  } else if (sel < 55) {
     v = genValue(r, g);
   } else if (sel < 70) {
     // sizes concentrated on header-width boundaries
@@ -580,8 +607,10 @@ Plan generate(const std::string& mode, uint64_t seed, uint64_t run) {
   }
   Op op = mkop("ser");
   static const char* fm[] = {"json", "pretty"};
-  op.set("fmt", mp ? "mp" : fm[r.below(2)]).set("v", toText(v)).set("caps", "all");
-  if (r.chance(1, 4)) {
+  op.set("fmt", mp ? "mp" : fm[r.below(2)]).set("v", toText(v)).set("caps", big ? "sample" : "all");
+  if (big)
+    op.set("viamp", 1);  // built by the MessagePack deserializer: member insertion through the API is quadratic
+  if (!big && r.chance(1, 4)) {
     bool raw = false;
     visitc(v, [&](const Val& x) {
       if (x.k == K::Raw || (x.k == K::Str && x.linked))
